@@ -106,7 +106,11 @@ def merge_results(mod, cases, results, capped, not_run, env):
     # cross-case invariants
     if hasattr(mod, 'finalize') and not harness_errors:
         fin = core.Out()
-        mod.finalize(aggs, fin, env)
+        try:
+            mod.finalize(aggs, fin, env)
+        except Exception:
+            import traceback
+            harness_errors.append('finalize raised\n' + traceback.format_exc())
         tot['states'] += fin.states
         tot['transitions'] += fin.transitions
         tot['traces'] += fin.traces
